@@ -33,7 +33,15 @@ def pyeq(x, y):
 
 def _edfm_post(a, r):
     f = Len(a.new_idx) / Len(a.idx) * a.scalefactor
+    lem = {}
+    if is_range(a.idx) and is_range(a.new_idx):
+        # intermediate assertions for the identical-ranges shortcut (proved first, then used by the clauses below)
+        lem["lem.cancel"] = Implies(Len(a.new_idx) == Len(a.idx), ForAll(0, Len(a.idx), lambda k: eq(
+            At(a.deltas, k) * Len(a.new_idx) / Len(a.idx) * a.scalefactor, At(a.deltas, k) * a.scalefactor)))
+        lem["lem.same-position"] = Implies(pyeq(a.idx, a.new_idx), ForAll(0, Len(a.new_idx), lambda k: ForAll(0, Len(a.idx), lambda j: Implies(
+            At(a.idx, j) == At(a.new_idx, k), j == k))))
     return {
+        **lem,
         "len": Len(r) == Len(a.new_idx),
         # measured configurations carry their own fluctuation, rescaled
         "hit": ForAll(0, Len(a.new_idx), lambda k: ForAll(0, Len(a.idx), lambda j: Implies(
